@@ -4,7 +4,6 @@
 package ice
 
 import (
-	"net"
 	"net/netip"
 )
 
@@ -78,11 +77,7 @@ func NewCandidateRelay(config *CandidateRelayConfig) (*CandidateRelay, error) {
 		relayProtocol: config.RelayProtocol,
 		onClose:       config.OnClose,
 	}
-	candidate.setResolvedAddr(&net.UDPAddr{
-		IP:   ipAddr.AsSlice(),
-		Port: config.Port,
-		Zone: ipAddr.Zone(),
-	})
+	candidate.setResolvedAddr(createAddr(networkType, ipAddr, config.Port))
 
 	return candidate, nil
 }
